@@ -97,7 +97,7 @@ def load_overlay(path, variants=frozenset()):
         nonlocal buf, sec
         if cur is not None and sec is not None:
             text = '\n'.join(buf).rstrip() + '\n'
-            if sec[0] in ('before', 'after', 'after-stmt'):
+            if sec[0] in ('before', 'after', 'after-stmt', 'before-stmt'):
                 cur.anchors.append((sec[0], sec[1], text, sec[2]))
             else:
                 if sec in cur.sections:
@@ -128,7 +128,7 @@ def load_overlay(path, variants=frozenset()):
         elif ln.startswith('--- '):
             flush()
             h = ln[4:].strip()
-            m = re.fullmatch(r'(before|after|after-stmt)\s+<<(.*)>>(?:#(\d+))?', h)
+            m = re.fullmatch(r'(before-stmt|before|after-stmt|after)\s+<<(.*)>>(?:#(\d+))?', h)
             m2 = re.fullmatch(r'(loop|closure)\s+(\d+)\s+(outer|pre|spec|post|body-start|body-end)', h)
             m3 = re.fullmatch(r'closure\s+~<<(.*)>>\s+spec', h)
             m4 = re.fullmatch(r'closure\s+@([A-Za-z_][A-Za-z0-9_]*)#(\d+)(\??)\s+spec', h)
@@ -520,6 +520,9 @@ def _desugar(body, spec, ctr, dropped, used):
             it = '__it%d' % k
             rs = [x for x in recv if x.sig()]
             tmp = None
+            if hasattr(ctr, 'recvs') and len(rs) >= 5 and [x.text for x in rs[-4:]] == ['.', 'iter', '(', ')']:
+                # `$feach<K>`: what `X.iter().for_each(..)` iterates over: the temporary T12 binds, or X itself when it is a path
+                ctr.recvs[k] = ('__fe%d' % k) if any(x.text == '(' for x in rs[:-4]) else ''.join(x.text for x in rs[:-4])
             if len(rs) >= 4 and rs[-1].text == ')' and rs[-2].text == '(' and rs[-3].text == 'iter' and rs[-4].text == '.' \
                     and any(x.text == '(' for x in rs[:-4]):
                 # RECV = X.iter() with a call inside X: bind the temporary
@@ -922,6 +925,27 @@ def _apply_anchor(toks, where, fragment, text, fname):
         pos = idx[s]
     elif where == 'after':
         pos = idx[s + len(frag) - 1] + 1
+    elif where == 'before-stmt':
+        # start of the enclosing statement: after the previous `;` / `}` at the same bracket depth, or after the `{` that
+        # opens the enclosing block
+        depth, pos = 0, 0
+        for j in range(idx[s] - 1, -1, -1):
+            t = toks[j]
+            if t.kind != 'punct':
+                continue
+            if t.text in rsscan.CLOSE:
+                if depth == 0 and t.text == '}':
+                    pos = j + 1
+                    break
+                depth += 1
+            elif t.text in rsscan.OPEN:
+                if depth == 0:
+                    pos = j + 1
+                    break
+                depth -= 1
+            elif t.text == ';' and depth == 0:
+                pos = j + 1
+                break
     else:
         # end of the enclosing statement: first `;` at depth 0 counted from the start of the fragment
         depth, pos = 0, None
@@ -982,8 +1006,10 @@ def _collect_for_patterns(body):
     ctr = LoopCounter()
     ctr.pats = {}
     ctr.lits = {}
+    ctr.recvs = {}
     _desugar(list(body), None, ctr, [], set())
     _collect_for_patterns.lits = ctr.lits
+    _collect_for_patterns.recvs = ctr.recvs
     return ctr.pats
 
 
@@ -1062,7 +1088,16 @@ def _subst_placeholders(text, lets, fname):
         if ls is None or i >= len(ls):
             raise Unsupported('%s: placeholder %s: no such string literal' % (fname, m.group(0)))
         return ls[i]
-    return re.sub(r'\$looplit<(\d+)>#(\d+)', replit, text)
+    text = re.sub(r'\$looplit<(\d+)>#(\d+)', replit, text)
+
+    def repfe(m):
+        # $feach<K> : the collection `X.iter().for_each(..)` statement K iterates over (T12's temporary, or the path X)
+        k = int(m.group(1))
+        nm = getattr(lets, 'recvs', {}).get(k)
+        if not nm:
+            raise Unsupported('%s: placeholder %s: loop %d is not a for_each over X.iter()' % (fname, m.group(0), k))
+        return nm
+    return re.sub(r'\$feach<(\d+)>', repfe, text)
 
 
 def _param_names(item):
@@ -1204,11 +1239,12 @@ def _resolve_spec(spec, body, fname):
     if spec is None:
         return None
     alltext = ''.join(spec.sections.values()) + ''.join(a[1] + a[2] for a in spec.anchors)
-    if '$let' not in alltext and '$for<' not in alltext and '$recv<' not in alltext and '$strlit<' not in alltext and '$strlitnot<' not in alltext and '$looplit<' not in alltext:
+    if '$let' not in alltext and '$for<' not in alltext and '$recv<' not in alltext and '$strlit<' not in alltext and '$strlitnot<' not in alltext and '$looplit<' not in alltext and '$feach<' not in alltext:
         return spec
     lets = LetList(_collect_lets(body))
     lets.forpats = _collect_for_patterns(body)
     lets.looplits = dict(_collect_for_patterns.lits)
+    lets.recvs = dict(_collect_for_patterns.recvs)
     lets.bodytexts = [t.text for t in body if t.sig()]
     c = FnSpec(spec.file, spec.impl_re, spec.name)
     c.tags, c.ctags, c.ret, c.lineno = spec.tags, spec.ctags, spec.ret, spec.lineno
